@@ -36,6 +36,14 @@ theorem C02_lookups_in_range (A : PAlg P) (g : Grid P) (hwf : WF A.toPOps g) (s 
     v.b < g.length ∧ validIdx (g.struct v.b).cols v.idx = true :=
   (pq_exactly_once A g hwf s h).2.1 v (List.mem_append_right _ hv)
 
+/-- the language: whatever each pre-terminal expands to (`f`), a completed run has emitted, as a multiset, exactly the
+expansions of all (structure, one group per variable) combinations — with C04 (`f` = the product of the groups) this is "the
+set of emitted guesses is the language of the grammar, every derivation once" -/
+theorem C02_language {α : Type} (A : PAlg P) (g : Grid P) (hwf : WF A.toPOps g) (s : PQState)
+    (h : Reach A.toPOps g (initNodes g) s) (hq : s.queue = []) (f : Node → List α) :
+    (s.popped.flatMap f).Perm ((allNodes g).flatMap f) :=
+  ((C02_exactly_once A g hwf s h).2.2 hq).flatMap_right f
+
 /-- **binary64 instance** (see `C01_order_binary64`): exactly-once for IEEE-754 doubles, every tie,
 rounding difference, denormal and underflow to zero included, with no floating-point hypothesis -/
 theorem C02_exactly_once_binary64 (g : Grid Nat) (hwf : WF sfAlg.toPOps g) (s : PQState)
